@@ -39,7 +39,10 @@ case $rc in
       echo "  class=data-race: $(grep -m1 -A3 'WARNING: DATA RACE' "$S/race.err" | tr '\n' ' ' | cut -c1-300)"
       echo "VIOLATION property=C07 replay=$f"; verdict="DATA RACE reported"; status=1 ;;
   1) mkdir -p "$RD"; f="$RD/race-mismatch-$seed.txt"; cat "$S/race.out" >"$f"
-      echo "  class=response-matches-no-state: $(grep first_mismatch "$S/race.out" | cut -c1-400)"
+      cls=response-matches-no-state
+      grep -q 'PANIC' "$S/race.out" && cls=panic-under-concurrency
+      grep -q 'DEADLOCK' "$S/race.out" && cls=deadlock-under-concurrency
+      echo "  class=$cls: $(grep first_mismatch "$S/race.out" | cut -c1-400)"
       echo "VIOLATION property=C07 replay=$f"; verdict="response matching no single state"; status=1 ;;
   *) echo "check: race companion crashed (exit $rc; reported as harness trouble, exit 2)"; tail -30 "$S/race.err"; exit 2 ;;
 esac
